@@ -16,6 +16,8 @@ ASSUME = [
     "Rbac.tla transcribes C02's statement; an absent section lists nothing; where the statement is silent "
     "(a request repeating a query key with different values) both readings are accepted (Rbac!Ambiguous)",
     "letter case = ASCII letters; names, users, groups, process names and exe paths compare exactly",
+    "'the rule set's default access' is allow exactly when the document's defaultAccess is the word allow in any letter "
+    "case; any other text is not allow (so a request no privilege matches is denied)",
     "universe: <=2 privileges/roles/identities/assignments, names from pools with dangling and duplicate names",
 ]
 
@@ -134,6 +136,12 @@ def run(c):
             dm["mode"] = rnd.choice([dm["mode"].capitalize(), dm["mode"].upper()])
             dm["defaultAccess"] = rnd.choice([dm["defaultAccess"], dm["defaultAccess"].capitalize()])
             variants.append(("mode-case", dm, url_str(u)))
+        # a default access that is not the word allow (in any letter case) is not allow: documents whose default is deny
+        # keep their decisions when the field carries any other text
+        if not d["allow"] and (i % 5 == 0 or thorough):
+            do = json.loads(json.dumps(base))
+            do["defaultAccess"] = rnd.choice(["", "none", "block", "denied", "Deny ", " allow", "allowed", "0", "DENY", "allow;"])
+            variants.append(("default-not-allow", do, url_str(u)))
         for name, dj, us in variants:
             cmds.append({"kind": "rbac", "doc": dj, "claims": claims_json(cl), "url": us})
             meta.append((i, name))
